@@ -6,6 +6,7 @@ import ChemModel.Model.Periodic
 import Batteries.Data.Char.AsciiCasing
 import Mathlib.Algebra.Order.Field.Rat
 import Mathlib.Algebra.Order.Field.Basic
+import Mathlib.Data.List.Nodup
 import Mathlib.Tactic.Ring
 import Mathlib.Tactic.Linarith
 
@@ -37,8 +38,10 @@ theorem unitMass_isSome (k : Nat) : (unitMass k).isSome ↔ k ≤ 118 := by
   split
   · next h => subst h; simp
   · next h =>
+    have key : ∀ o : Option Nat, (o >>= fun a => (pure (a : Rat) : Option Rat)).isSome = o.isSome := by
+      intro o; cases o <;> rfl
     unfold weight?
-    rw [if_neg h, Option.isSome_map, List.isSome_getElem?, massTab_length]
+    rw [if_neg h, Option.isSome_map, key, isSome_getElem?, massTab_length]
     omega
 
 theorem massTerm_isSome (k : Nat) (v : Rat) : (massTerm k v).isSome ↔ k ≤ 118 := by
@@ -180,9 +183,8 @@ theorem lowerStr_toList (s : String) : (lowerStr s).toList = s.toList.map Char.t
   unfold lowerStr; rw [String.toList_ofList]
 
 theorem lowerStr_lowerStr (s : String) : lowerStr (lowerStr s) = lowerStr s := by
-  conv => lhs; unfold lowerStr
+  show String.ofList ((lowerStr s).toList.map Char.toLower) = String.ofList (s.toList.map Char.toLower)
   rw [lowerStr_toList, List.map_map]
-  unfold lowerStr
   congr 1
   apply List.map_congr_left
   intro c _
@@ -223,35 +225,141 @@ theorem atomicNumber_lowerStr (s : String) : atomicNumber (lowerStr s) = atomicN
 
 /-! ### `atomic_number` -/
 
-theorem symbols_check :
-    (List.range 118).all
-      (fun i => atomicNumber (lowerStr (symbols.getD i "")) == some (i + 1)) = true := by
-  decide +kernel
+/-!
+String operations are slow inside the kernel, so the table checks are arranged to touch every
+string only a few times: each string is turned into a numeric fingerprint exactly once (forced
+by a `match` on the number), and all pairwise comparisons are then done on `Nat` literals.
+-/
 
-theorem names_check :
-    (List.range 118).all
-      (fun i => atomicNumber (lowerStr (names.getD i "")) == some (i + 1)) = true := by
-  decide +kernel
+/-- an ad-hoc numeric fingerprint of a character list -/
+def encL (l : List Char) : Nat := l.foldl (fun a c => a * 256 + c.toNat) 0
 
-theorem getD_eq_getElem' (l : List String) (i : Nat) (h : i < l.length) :
-    l.getD i "" = l[i] := by
-  rw [List.getD_eq_getElem?_getD, List.getElem?_eq_getElem h]; rfl
+/-- force evaluation of `n` (by a `match`) before continuing -/
+def withNat (n : Nat) (k : Nat → Bool) : Bool :=
+  match n with
+  | 0 => k 0
+  | m + 1 => k (m + 1)
+
+theorem withNat_eq (n : Nat) (k : Nat → Bool) : withNat n k = k n := by
+  cases n <;> rfl
+
+/-- `k (l.map f)`, evaluating each `f x` once -/
+def evalNats {α : Type} (f : α → Nat) : List α → (List Nat → Bool) → Bool
+  | [], k => k []
+  | x :: r, k => withNat (f x) fun n => evalNats f r fun l => k (n :: l)
+
+theorem evalNats_eq {α : Type} (f : α → Nat) (l : List α) (k : List Nat → Bool) :
+    evalNats f l k = k (l.map f) := by
+  induction l generalizing k with
+  | nil => rfl
+  | cons x r ih => rw [evalNats, withNat_eq, ih, List.map_cons]
+
+def distinct : List Nat → Bool
+  | [] => true
+  | x :: r => !(r.contains x) && distinct r
+
+theorem nodup_of_distinct (l : List Nat) (h : distinct l = true) : l.Nodup := by
+  induction l with
+  | nil => exact List.nodup_nil
+  | cons x r ih =>
+    rw [distinct, Bool.and_eq_true, Bool.not_eq_true', List.contains_eq_mem,
+      decide_eq_false_iff_not] at h
+    exact List.nodup_cons.mpr ⟨h.1, ih h.2⟩
+
+theorem symbols_enc_check :
+    evalNats (fun s : String => encL s.toList) symbols distinct = true := by decide +kernel
+theorem lowerNames_enc_check :
+    evalNats (fun s : String => encL (s.toList.map Char.toLower)) names distinct = true := by
+  decide +kernel
+theorem symbols_capitalized : symbols.map capitalizeStr = symbols := by decide +kernel
+theorem symbols_short : symbols.all (fun s => s.length ≤ 2) = true := by decide +kernel
+theorem names_long : names.all (fun s => 3 ≤ s.length) = true := by decide +kernel
+
+theorem symbols_nodup : symbols.Nodup := by
+  have h := symbols_enc_check
+  rw [evalNats_eq] at h
+  exact List.Nodup.of_map _ (nodup_of_distinct _ h)
+
+theorem lowerNames_nodup : lowerNames.Nodup := by
+  have h := lowerNames_enc_check
+  rw [evalNats_eq] at h
+  have h2 := nodup_of_distinct _ h
+  have : names.map (fun s : String => encL (s.toList.map Char.toLower))
+      = lowerNames.map (fun s : String => encL s.toList) := by
+    unfold lowerNames
+    rw [List.map_map]
+    apply List.map_congr_left
+    intro s _
+    simp only [Function.comp_apply, lowerStr_toList]
+  rw [this] at h2
+  exact List.Nodup.of_map _ h2
+
+theorem capitalizeStr_length (s : String) : (capitalizeStr s).length = s.length := by
+  unfold capitalizeStr
+  rw [← String.length_toList (s := s)]
+  cases s.toList with
+  | nil => rfl
+  | cons c r => simp only [String.length_ofList, List.length_cons, List.length_map]
+
+theorem capitalizeStr_name_not_symbol (n : String) (hn : n ∈ names) :
+    capitalizeStr n ∉ symbols := by
+  intro hmem
+  have h1 := List.all_eq_true.mp names_long n hn
+  have h2 := List.all_eq_true.mp symbols_short _ hmem
+  rw [decide_eq_true_iff] at h1 h2
+  rw [capitalizeStr_length] at h2
+  omega
+
+theorem capitalizeStr_symbol (i : Nat) (h : i < symbols.length) :
+    capitalizeStr symbols[i] = symbols[i] := by
+  have h1 : (symbols.map capitalizeStr)[i]? = symbols[i]? := by rw [symbols_capitalized]
+  rw [List.getElem?_map, List.getElem?_eq_getElem h, Option.map_some] at h1
+  exact Option.some.inj h1
+
+theorem indexOf?_getElem {l : List String} (hl : l.Nodup) (i : Nat) (h : i < l.length) :
+    indexOf? l l[i] = some i := by
+  have hidx : l.findIdx (· == l[i]) = i := by
+    rw [List.findIdx_eq h]
+    refine ⟨by simp, ?_⟩
+    intro j hji
+    have hjl : j < l.length := Nat.lt_trans hji h
+    have hne : l[j] ≠ l[i] := by
+      intro heq
+      have := (List.Nodup.getElem_inj_iff hl).mp heq
+      omega
+    simpa using hne
+  unfold indexOf?
+  simp only [hidx, h, if_true]
+
+theorem indexOf?_not_mem {l : List String} {s : String} (h : s ∉ l) : indexOf? l s = none := by
+  have hidx : l.findIdx (· == s) = l.length := by
+    rw [List.findIdx_eq_length]
+    intro x hx
+    have : x ≠ s := fun e => h (e ▸ hx)
+    simpa using this
+  unfold indexOf?
+  simp only [hidx, Nat.lt_irrefl, if_false]
 
 theorem atomicNumber_symbol (i : Nat) (hi : i < 118) (s : String)
     (hs : lowerStr s = lowerStr (symbols[i]'(by rw [symbols_length]; exact hi))) :
     atomicNumber s = some (i + 1) := by
-  have h := List.all_eq_true.mp symbols_check i (List.mem_range.mpr hi)
-  rw [getD_eq_getElem' symbols i (by rw [symbols_length]; exact hi)] at h
-  rw [← atomicNumber_lowerStr, hs]
-  exact eq_of_beq h
+  have hl : i < symbols.length := by rw [symbols_length]; exact hi
+  rw [← atomicNumber_lowerStr, hs, atomicNumber_lowerStr]
+  unfold atomicNumber
+  rw [capitalizeStr_symbol i hl, indexOf?_getElem symbols_nodup i hl]
 
 theorem atomicNumber_name (i : Nat) (hi : i < 118) (s : String)
     (hs : lowerStr s = lowerStr (names[i]'(by rw [names_length]; exact hi))) :
     atomicNumber s = some (i + 1) := by
-  have h := List.all_eq_true.mp names_check i (List.mem_range.mpr hi)
-  rw [getD_eq_getElem' names i (by rw [names_length]; exact hi)] at h
-  rw [← atomicNumber_lowerStr, hs]
-  exact eq_of_beq h
+  have hl : i < names.length := by rw [names_length]; exact hi
+  rw [← atomicNumber_lowerStr, hs, atomicNumber_lowerStr]
+  unfold atomicNumber
+  rw [indexOf?_not_mem (capitalizeStr_name_not_symbol _ (List.getElem_mem hl))]
+  have hl' : i < lowerNames.length := by rw [lowerNames_length]; exact hi
+  have hmap : lowerStr (names[i]'hl) = lowerNames[i]'hl' :=
+    (List.getElem_map (f := lowerStr) (l := names) (h := hl')).symm
+  simp only
+  rw [hmap, indexOf?_getElem lowerNames_nodup i hl']
 
 theorem indexOf?_some {l : List String} {s : String} {i : Nat} (h : indexOf? l s = some i) :
     i < l.length ∧ l[i]? = some s := by
